@@ -1157,18 +1157,17 @@ func classTextIsDisplayOnly(c *Ctx, g *load.G, rule string) {
 						continue
 					}
 					if cs := callSel(ce); (cs == "writelnf" || cs == "writef") && len(ce.Args) >= 2 {
-						if tv, ok := p.TypesInfo.Types[ce.Args[0]]; ok && tv.Value != nil && strings.Contains(tv.Value.ExactString(), "val:") {
-							for _, a := range ce.Args[1:] {
-								if a == ast.Expr(se) {
-									okUse = true
-								}
+						// the text is written out (as the `val:` key today): shown, not compared
+						for _, a := range ce.Args[1:] {
+							if a == ast.Expr(se) {
+								okUse = true
 							}
 						}
 					}
 					break
 				}
 				if !okUse {
-					bad = append(bad, fmt.Sprintf("%s reads the text of a character class for something other than the emitted `val:` key", g.Where(se.Pos())))
+					bad = append(bad, fmt.Sprintf("%s reads the text of a character class for something other than writing it out (the emitted `val:` key)", g.Where(se.Pos())))
 				}
 				return true
 			})
